@@ -134,4 +134,19 @@ PROPS = {
               {"asan": {"workers": 8}, "plain": {"workers": 4}, "tsan": {"workers": 4}},
               {"asan": {"workers": 8}, "plain": {"workers": 4}, "tsan": {"workers": 4}}),
     ),
+    "C08": dict(
+        level="exploration",
+        rule=("one run = a pool of <=4/6 generated functions whose bodies build and mutate locals from literals (strings, numbers, inline "
+              "vectors/maps/ranges, nested containers, interpolated strings, references to locals) and return locals or literals, plus <=2 parsed "
+              "trees evaluated through eval(AST_Node); every chosen call (function, argument, caller style: plain / copy-then-mutate / "
+              "reference-then-mutate) is issued 3..6 times by 1..3 actors in shuffled order under the seeded scheduler; a callback inside a body "
+              "throws on a chosen repetition. distinct = hash of (bodies, trees, history) x interleaving; non-trivial = at least 3 calls. "
+              "Oracle: every call equals the same call on a pristine engine (one pristine engine per distinct call); AST dumps before/after."),
+        real_vs_stub=REAL,
+        assumptions=COMMON_ASSUME + ["AST_Node::to_string() shows node types, texts and locations, not the boxed constant values: a mutated literal is caught by the behavioural comparison, not by the dump"],
+        expected_probes=["probe_third_or_later_evaluation_of_a_body", "fault_throw_inside_body", "ast_dumps_compared", "calls_returning_a_value"],
+        **two(40, 420,
+              {"asan": {"workers": 8}, "plain": {"workers": 4}, "tsan": {"workers": 4}},
+              {"asan": {"workers": 8}, "plain": {"workers": 4}, "tsan": {"workers": 4}}),
+    ),
 }
